@@ -875,14 +875,16 @@ def run(ctx):
                 'demand on it (cases whose verdict depends on how a run of alternating CR/LF is read as line breaks are skipped by '
                 'the oracle, still compared with the model); clean_input cases count when cleaning changes the string; regex cases '
                 'when re.match and re.fullmatch differ')
+    import time
+    secs = {}
+    t0 = time.time()
     check_unicode_tables(res)
-    run_clean(ctx, res, rng, scale)
-    run_match(ctx, res, rng, scale)
-    run_small_scope(ctx, res, rng, scale)
-    run_minimums(ctx, res, rng, scale)
-    run_validation(ctx, res, rng, scale)
-    run_check_response(ctx, res, rng, scale)
-    run_regex(ctx, res, rng, scale)
+    secs['unicode_tables'] = round(time.time() - t0, 1)
+    for fn in (run_clean, run_match, run_small_scope, run_minimums, run_validation, run_check_response, run_regex):
+        t0 = time.time()
+        fn(ctx, res, rng, scale)
+        secs[fn.__name__] = round(time.time() - t0, 1)
+    res.distribution['seconds'] = secs
     res.distribution['scale'] = scale
     # witnesses that do not fit the narrow characterisation of a recorded defect are reported first
     res.witnesses.sort(key=lambda w: w.get('finding') is not None)
